@@ -76,6 +76,13 @@ def run(ctx, mode):
                           name="Client, 2 starts, all properties (strict environment)")
             ctx.tlc_model("ClientMC", "ClientMC_two_asis.cfg", workers=vlib.NCPU, heap_gb=24, timeout=3000,
                           name="Client, 2 starts, robust invariants on every interleaving")
+            ctx.tlc_model("ClientMC", "ClientMC_two_deep.cfg", workers=vlib.NCPU, heap_gb=30, timeout=3000,
+                          name="Client, 2 starts, 2 retransmissions, 2 responses, clock 0..4, all properties (strict environment)")
+            if mode == "C10":
+                # the largest exhaustive run (58 M distinct states, about 14 min): once per thorough round is enough,
+                # it checks the invariants of all four client properties
+                ctx.tlc_model("ClientMC", "ClientMC_two_deep2.cfg", workers=vlib.NCPU, heap_gb=40, timeout=5400,
+                              name="Client, 2 starts, 2 retransmissions, 2 responses, 2 failing writes, 1 junk datagram, clock 0..4, all properties (strict environment)")
         scheds = []
         for cfg, name, ma, cc, fb, smp in [
                 ("ClientMC_cover.cfg", "transition cover source: 1 start, default retransmission, 1 failing write, 1 response", 7, True, True, 4000 if quick else None),
@@ -97,7 +104,7 @@ def run(ctx, mode):
         sizes = [20, 20, 20, 1500, 1501, 2048, 2049, 4096, 65535]
         rnd = random.Random(ctx.seed)
         for i, s in enumerate(scheds):
-            s["msgsize"] = (65535 if i % 60 == 7 else sizes[rnd.randrange(len(sizes) - 1)]) if mode == "C11" else 20
+            s["msgsize"] = (65535 if i % (60 if ctx.quick() else 600) == 7 else sizes[rnd.randrange(len(sizes) - 1)]) if mode == "C11" else 20
             # the agent's or the connection's Close reports an error in a share of the schedules
             s["closefault"] = ["", "", "conn", "agent"][i % 4] if mode == "C15" else ""
         with open(vec, "w") as fh:
@@ -114,7 +121,7 @@ def run(ctx, mode):
     while True:
         part = ctx.path("client_part.ndjson")
         rc, out = ctx.drive(h, "TestVerifClientReplay", env={"VERIF_TRACE_OUT": part, "VERIF_VECTORS": vec, "VERIF_TRACE_SYNC": 1,
-                                                            "VERIF_TR_BASE": base}, timeout=1500, ok_rc=(0, 1, 2))
+                                                            "VERIF_TR_BASE": base}, timeout=1500 if ctx.quick() else 6000, ok_rc=(0, 1, 2))
         with open(part) as fh:
             lines = [ln for ln in fh if ln.endswith("\n")]
         last = 0
